@@ -79,25 +79,6 @@ theorem skip_then_read (e : Endian) (v w : TVal) (hv : v.wt = true) (hw : w.wt =
       Binary.read e w.ttype rest = .ok (w, r) :=
   ⟨_, skip_exact e v hv d hd _, C01.binary_roundtrip e w hw r⟩
 
-theorem need_norm : ∀ v : TVal, (Compact.norm v).need = v.need
-  | .struct fs => by simp [Compact.norm, TVal.need, needF_norm fs]
-  | .list _ xs => by simp [Compact.norm, TVal.need, needL_norm xs]
-  | .set _ xs => by simp [Compact.norm, TVal.need, needL_norm xs]
-  | .map _ _ .nil => by simp [Compact.norm, TVal.need, TPairs.need]
-  | .map _ _ (.cons k v r) => by
-      simp [Compact.norm, Compact.normPairs, TVal.need, TPairs.need, need_norm k, need_norm v, needP_norm r]
-  | .bool _ | .i8 _ | .i16 _ | .i32 _ | .i64 _ | .dbl _ | .bin _ | .uuid _ => by simp [Compact.norm]
-where
-  needL_norm : ∀ xs : TVals, (Compact.normVals xs).need = xs.need
-    | .nil => rfl
-    | .cons v vs => by simp [Compact.normVals, TVals.need, need_norm v, needL_norm vs]
-  needF_norm : ∀ fs : TFields, (Compact.normFields fs).need = fs.need
-    | .nil => rfl
-    | .cons _ v r => by simp [Compact.normFields, TFields.need, need_norm v, needF_norm r]
-  needP_norm : ∀ kvs : TPairs, (Compact.normPairs kvs).need = kvs.need
-    | .nil => rfl
-    | .cons k v r => by simp [Compact.normPairs, TPairs.need, need_norm k, need_norm v, needP_norm r]
-
 /-- Compact: from any writer state without a deferred bool and any reader state without a pending
 bool, skipping the written value reports its length, leaves the trailing bytes, and leaves the
 reader state (last field id, field-id stack) as it was. -/
@@ -109,7 +90,7 @@ theorem compact_skip_exact (v : TVal) (hw : v.wt = true) (ws : Compact.CW) (hp :
   refine ⟨bs, h1, fun rs hr r => ?_⟩
   have h0 : 0 ≤ d := by have := Skip.TVal.need_pos v; omega
   have := compact_skip_consumes_what_read_consumes v.ttype rs _ _ rs r d h0 (h2 rs hr r)
-  rw [this, need_norm]; simp [hd]
+  rw [this, Skip.need_norm]; simp [hd]
 
 theorem compact_skip_depth (v : TVal) (hw : v.wt = true) (ws : Compact.CW) (hp : ws.pending = none) (d : Int) (h0 : 0 ≤ d) (hd : d < (v.need : Int)) :
     ∃ bs, Compact.run ws v.ops = .ok (ws, bs) ∧
@@ -117,7 +98,7 @@ theorem compact_skip_depth (v : TVal) (hw : v.wt = true) (ws : Compact.CW) (hp :
   obtain ⟨bs, h1, h2⟩ := C01.compact_roundtrip v hw ws hp
   refine ⟨bs, h1, fun rs hr r => ?_⟩
   have := compact_skip_consumes_what_read_consumes v.ttype rs _ _ rs r d h0 (h2 rs hr r)
-  rw [this, need_norm]; simp; omega
+  rw [this, Skip.need_norm]; simp; omega
 
 theorem compact_skip_then_read (v w : TVal) (hv : v.wt = true) (hw : w.wt = true) (ws : Compact.CW) (hp : ws.pending = none)
     (d : Int) (hd : (v.need : Int) ≤ d) :
@@ -167,7 +148,7 @@ theorem async_compact_skip_exact (v : TVal) (hw : v.wt = true) (ws : Compact.CW)
   unfold Skip.askipCompact
   have := (Skip.rdSkip_of_read _ Skip.asyncCompactPrims_like (3 * (bs ++ r).length + 3)).1 d v.ttype rs (bs ++ r) h0
   rw [hrd] at this
-  rw [this]; simp [Skip.specC, need_norm, hd]
+  rw [this]; simp [Skip.specC, Skip.need_norm, hd]
 
 theorem async_compact_skip_depth (v : TVal) (hw : v.wt = true) (ws : Compact.CW) (hp : ws.pending = none) (d : Int) (h0 : 0 ≤ d) (hd : d < (v.need : Int)) :
     ∃ bs, Compact.run ws v.ops = .ok (ws, bs) ∧
@@ -179,7 +160,7 @@ theorem async_compact_skip_depth (v : TVal) (hw : v.wt = true) (ws : Compact.CW)
   unfold Skip.askipCompact
   have := (Skip.rdSkip_of_read _ Skip.asyncCompactPrims_like (3 * (bs ++ r).length + 3)).1 d v.ttype rs (bs ++ r) h0
   rw [hrd] at this
-  rw [this]; simp [Skip.specC, need_norm]; omega
+  rw [this]; simp [Skip.specC, Skip.need_norm]; omega
 
 /-! ### the unchecked reader's iterative skipper -/
 
